@@ -12,7 +12,7 @@ theorem rd_iff (s : State) (id : Nat) :
   simp [retainedDone]
 
 /-- every handle the user holds and that is not `lost` is listed and completed in the running instance -/
-def UInv (s : State) (sp : SpecSt) : Prop := ∀ id ∈ sp.handles, id ∉ sp.lost → retainedDone s id = true
+def UInv (s : State) (sp : SpecSt) : Prop := ∀ id ∈ sp.handles, id ∉ sp.unlisted → retainedDone s id = true
 
 theorem uinv_same {s s' : State} {sp : SpecSt} (h : UInv s sp) (hd : s'.done = s.done) (hc : s'.ckpts = s.ckpts) :
     UInv s' sp := by
@@ -72,11 +72,11 @@ theorem uinv_step (s s' : State) (sp : SpecSt) (a : Act) (h : UInv s sp) (hg : g
           exact uinv_same h fr.done fr.ckpts
   | openBegin id' =>
     intro id hid hl
-    simp only [stepSpec, List.mem_filter, List.mem_append, decide_eq_true_eq] at hid hl
+    simp only [stepSpec, List.mem_filter, List.mem_append, bne_iff_ne, ne_eq] at hid hl
     have heq : id = id' := by
-      rcases Nat.lt_or_eq_of_le hid.2 with hlt | heq
-      · exact absurd ⟨Or.inr ⟨hid.1, hlt⟩, hid.2⟩ hl
-      · exact heq
+      apply Classical.byContradiction
+      intro hne
+      exact hl (Or.inr ⟨hid, hne⟩)
     subst heq
     simp only [step] at hs
     split at hs
@@ -122,7 +122,7 @@ theorem uinv_step (s s' : State) (sp : SpecSt) (a : Act) (h : UInv s sp) (hg : g
         subst hs
         intro id hid hl
         simp only [stepSpec, List.mem_filter, bne_iff_ne, ne_eq] at hid hl
-        have hl' : id ∉ sp.lost := fun hm => hl ⟨hm, hid.2⟩
+        have hl' : id ∉ sp.unlisted := fun hm => hl ⟨hm, hid.2⟩
         obtain ⟨hd, c, hc, hcid⟩ := (rd_iff s id).mp (h id hid.1 hl')
         exact (rd_iff _ id).mpr ⟨hd, c, List.mem_append_left _ hc, hcid⟩
   | saveDoc id' =>
@@ -158,17 +158,17 @@ theorem uinv_step (s s' : State) (sp : SpecSt) (a : Act) (h : UInv s sp) (hg : g
         subst hs
         intro id hid hl
         simp only [stepSpec, List.mem_filter] at hid hl
-        have hl' : id ∉ sp.lost := fun hm => hl ⟨hm, hid.2⟩
+        have hl' : id ∉ sp.unlisted := fun hm => hl ⟨hm, hid.2⟩
         obtain ⟨hd, c, hc, hcid⟩ := (rd_iff s id).mp (h id hid.1 hl')
         apply (rd_iff _ id).mpr
         exact ⟨hd, c, List.mem_filter.mpr ⟨hc, by rw [hcid]; exact hid.2⟩, hcid⟩
   | «open» id' rots =>
     intro id hid hl
-    simp only [stepSpec, List.mem_filter, List.mem_append, decide_eq_true_eq] at hid hl
+    simp only [stepSpec, List.mem_filter, List.mem_append, bne_iff_ne, ne_eq] at hid hl
     have heq : id = id' := by
-      rcases Nat.lt_or_eq_of_le hid.2 with hlt | heq
-      · exact absurd ⟨Or.inr ⟨hid.1, hlt⟩, hid.2⟩ hl
-      · exact heq
+      apply Classical.byContradiction
+      intro hne
+      exact hl (Or.inr ⟨hid, hne⟩)
     subst heq
     simp only [step] at hs
     split at hs
